@@ -149,7 +149,11 @@ claim("C01",
       "placed_is_expected (what an entry contributes to a listed group is exactly what the evaluated specification C01.expected / locOf names), "
       "mark_placed (pads and linker offsets: once, where their section is placed). Hypotheses: section_order keys pairwise different, no section "
       "listed as a sub-group twice, (for placed_is_expected) no listed section is a sub-group. The lift from one entry to the whole segment "
-      "(entries with equal paths) is the declarative specification C01.expected, evaluated as a multiset equality on the implementation's "
+      "(Props/C01Seg.lean): emitEntry_flatten / emitSection_flatten (what emit_section writes for a group is the concatenation, in order, of what "
+      "each leaf - an included entry that is not a plain group, with its base directory - writes for it), group_inputs_nodup (no group with a "
+      "section_order of its own, leaves named differently: the input statements of a group are pairwise different) and segment_inputs_once (no "
+      "input statement occurs in two groups that are nobody's sub-group); two entries with one path and member, and groups carrying a "
+      "section_order, stay with the declarative specification C01.expected, evaluated as a multiset equality on the implementation's "
       "ordinary, single-segment and partial scripts on every case. Image theorem image_placed_inside_segment: everything the statements of an output section of a segment place lies inside that section's address range and in no other section, for every object table and link state." + IMG,
       "Lean 4 proofs about the emitter (per entry complete; whole-segment lift evaluated) + declarative placement specification evaluated on implementation scripts + real links", "DESIGN.md §8 C01")
 claim("C02",
@@ -177,7 +181,12 @@ claim("C04",
       "statements yields, for every size the link may give SIZEOF, exactly the documented recurrence (start = previous end rounded up, end = "
       "start + size rounded up) and loads each allocatable part at its ROM start. Image theorem image_rom_recurrence: linking `__romPos = 0` and what add_segment writes for all "
       "segments leaves the ROM counter at the documented recurrence over the emitted segments, with the sizes of the `.seg` output sections the "
-      "link recorded; noload parts never enter." + IMG,
+      "link recorded; noload parts never enter. Props/C04Final.lean, final_rom_symbols: in the image Ld.link returns for the whole ordinary "
+      "script of a document (multi-segment mode, every emitted segment with an allocatable section, any options, object table and --defsym "
+      "table) each emitted segment's ROM start symbol is the previous emitted segment's ROM end (0 for the first) rounded up to its start "
+      "alignment and its ROM end symbol is that plus the size of its allocatable output section only, rounded up to its end alignment - for "
+      "every ROM symbol the script assigns once (Ld.assignCount <= 1, decidable, evaluated on every linked case: evidence final_hypothesis); "
+      "the bridge (Props/Final.lean: step_keeps, execK_keeps, imageOf_sym, link_eq) holds for every statement and state." + IMG,
       "Lean 4 proof: ROM view of the generated script + recurrence over a ROM machine; real-link validation", "DESIGN.md §8 C04")
 claim("C05",
       "Lean theorems (Props/C05.lean): section_symbols_defined, kind_symbols_defined, segment_symbols_defined (every family has start, end and "
